@@ -65,6 +65,9 @@ type Pool struct {
 	// Ramp: the startup profile is Instances at once and then 5 more per second for 3 s, so that it
 	// is still releasing instances when the (small) ammo supply runs out under a paced profile
 	Ramp bool `json:"startup_ramp,omitempty"`
+	// FromConfig: the rps section is written as config (a list of mappings) and the schedule
+	// factory is the one the config decoder builds, as in a real run
+	FromConfig bool `json:"rps_from_config,omitempty"`
 	Procs        int       `json:"gomaxprocs"`
 	Seed         int64     `json:"seed"`
 }
@@ -92,6 +95,24 @@ func genSched(rng *rand.Rand, depth int) SchedSpec {
 		}
 		return s
 	}
+}
+
+func toVkit(s SchedSpec) vkit.SchedSpec {
+	out := vkit.SchedSpec{Kind: s.Kind, A: s.A, B: s.B, N: s.N, DurMs: s.DurMs}
+	for _, p := range s.Parts {
+		out.Parts = append(out.Parts, toVkit(p))
+	}
+	return out
+}
+
+// expressible: every leaf can be written as config (once needs times ≥ 1)
+func expressible(s SchedSpec) bool {
+	for _, l := range toVkit(s).Leaves() {
+		if (l.Kind == "once" && l.N < 1) || (l.Kind != "once" && l.DurMs < 1) {
+			return false
+		}
+	}
+	return true
 }
 
 func genPool(rng *rand.Rand) Pool {
@@ -132,7 +153,11 @@ func genPool(rng *rand.Rand) Pool {
 	if p.Ammo < 0 {
 		p.Ammo = 0
 	}
+	if p.PreStartMs == 0 && expressible(p.RPS) && rng.Intn(3) == 0 {
+		p.FromConfig = true
+	}
 	if rng.Intn(8) == 1 {
+		p.FromConfig = false
 		// a shared profile riddled with empty parts (pauses of 0 rps, once 0): many boundaries at
 		// which several instances find a part drained and the next one empty at the same time
 		p.Ramp, p.StartupConst, p.PreStartMs, p.PerInstance = false, false, 0, false
@@ -185,8 +210,27 @@ func runPool(res *vkit.Result, p Pool) {
 	T := p.RPS.Build().Left()
 	var recMu sync.Mutex
 	var recs []*vkit.RecSchedule
+	var decoded func() (core.Schedule, error)
+	if p.FromConfig {
+		var parts []any
+		for _, l := range toVkit(p.RPS).Leaves() {
+			parts = append(parts, l.ConfMap())
+		}
+		pc, err := vkit.DecodedPool(parts, nil, p.PerInstance)
+		if err != nil {
+			res.Inconclusive(true, "rps config rejected: %v (%s)", err, vkit.JSON(parts))
+			return
+		}
+		decoded = pc.NewRPSSchedule
+	}
 	newSched := func() (core.Schedule, error) {
 		s := p.RPS.Build()
+		if decoded != nil {
+			var err error
+			if s, err = decoded(); err != nil {
+				return nil, err
+			}
+		}
 		if p.PreStartMs > 0 {
 			s.Start(time.Now().Add(-time.Duration(p.PreStartMs) * time.Millisecond))
 		}
@@ -320,6 +364,8 @@ var seeds = []Pool{
 	{Instances: 3, PerInstance: false, RPS: SchedSpec{Kind: "once", N: 40}, Ammo: 40, AmmoClass: "T", Discard: false, PreStartMs: 2500, Seed: 6},
 	{Instances: 1, PerInstance: true, RPS: SchedSpec{Kind: "const", A: 0, DurMs: 20}, Ammo: 3, AmmoClass: "T+N", Seed: 7},
 	{Instances: 5, PerInstance: false, RPS: SchedSpec{Kind: "once", N: 0}, Ammo: 3, AmmoClass: "T+N", Seed: 8},
+	{Instances: 4, PerInstance: true, RPS: SchedSpec{Kind: "composite", Parts: []SchedSpec{{Kind: "once", N: 5}}}, Ammo: 100, AmmoClass: "10T", FromConfig: true, Seed: 12},
+	{Instances: 3, PerInstance: true, RPS: SchedSpec{Kind: "composite", Parts: []SchedSpec{{Kind: "once", N: 3}, {Kind: "const", A: 0, DurMs: 100}, {Kind: "once", N: 2}}}, Ammo: 100, AmmoClass: "10T", FromConfig: true, Seed: 13},
 	{Instances: 3, PerInstance: false, RPS: SchedSpec{Kind: "const", A: 20, DurMs: 3000}, Ammo: 12, AmmoClass: "ramp", Ramp: true, Seed: 9},
 	{Instances: 3, PerInstance: true, RPS: SchedSpec{Kind: "const", A: 20, DurMs: 3000}, Ammo: 12, AmmoClass: "ramp", Ramp: true, Seed: 10},
 	{Instances: 5, PerInstance: false, RPS: SchedSpec{Kind: "line", A: 10, B: 60, DurMs: 2000}, Ammo: 9, AmmoClass: "ramp", Ramp: true, ShotMaxUs: 2000, Seed: 11},
